@@ -410,6 +410,61 @@ theorem ayield_any_depth (ub : UB) (hub : NoOOB ub) (g : Goi ub) (a : AG ub.σ) 
     (op : COp) (hop : OpOk op) : (goiStart ub op g).2 = (nativeStart ub op a).2 :=
   (goi_step_eq ub hub g a hR op hop).1
 
+/-! ## asyncgen hooks -/
+
+/-- hook states correspond: same state, and a generator whose hooks were never initialised has never
+    been touched (unstarted, nobody suspended in it) -/
+def HookRel {ub : UB} (hs hn : HookSt) (a : AG ub.σ) : Prop :=
+  hs = hn ∧ (hn.inited = false → isCreated a.frame = true ∧ a.running = false)
+
+/-- **goi_hooks_call_eq**: on corresponding objects every consumer call makes the same hook calls
+    (`firstiter` exactly once, on the first call; the finalizer installed at that moment is the one
+    captured), for every hook configuration, and the hook states correspond again. -/
+theorem goi_hooks_call_eq (ub : UB) (h : HookCfg) (g : Goi ub) (a : AG ub.σ) (hR : Rel g a)
+    (hs hn : HookSt) (hH : HookRel hs hn a) :
+    (goiHookCall h hs g).2 = (nativeHookCall h hn a).2 ∧
+    (goiHookCall h hs g).1 = (nativeHookCall h hn a).1 ∧
+    (nativeHookCall h hn a).1.inited = true := by
+  obtain ⟨rfl, hnew⟩ := hH
+  cases hi : hs.inited with
+  | true =>
+    simp [goiHookCall, nativeHookCall, hookInit, hi]
+  | false =>
+    obtain ⟨hc, hrun⟩ := hnew hi
+    have hc' : isCreated g.coro = true := by rw [hR.frame]; exact hc
+    have hr' : g.running = false := by rw [hR.running]; exact hrun
+    have hd : SCoro.isDone g.coro = false := by
+      cases hcc : g.coro <;> simp_all [isCreated, SCoro.isDone]
+    simp [goiHookCall, nativeHookCall, hookInit, hi, hc', hr', hd]
+
+/-- **goi_hooks_gc_eq**: a generator abandoned while no consumer is suspended in it — unstarted, at a
+    yield, exhausted, failed or closed — is handed to the finalizer by both kinds or by neither. -/
+theorem goi_hooks_gc_eq (ub : UB) (g : Goi ub) (a : AG ub.σ) (hR : Rel g a) (hrun : a.running = false)
+    (st : HookSt) :
+    goiHookGC st g = nativeHookGC st a := by
+  have hf : g.coro = a.frame := hR.frame
+  cases hfin : st.fin with
+  | false => simp [goiHookGC, nativeHookGC, hfin]
+  | true =>
+    cases hd : SCoro.isDone a.frame with
+    | true => simp [goiHookGC, nativeHookGC, hfin, hf, hd]
+    | false =>
+      have hcl : a.closed = false := by
+        cases hc : a.closed with
+        | false => rfl
+        | true =>
+          cases hR.closed hc with
+          | inl h => rw [hrun] at h; exact absurd h (by simp)
+          | inr h => rw [hd] at h; exact absurd h (by simp)
+      simp [goiHookGC, nativeHookGC, hfin, hf, hd, hcl]
+
+/-- the finding repaired by fixes/C06-asyncgen-hooks.patch: the old `__del__` handed a *finished* iterator
+    to the finalizer, a native generator never is -/
+example : goiHookGCOld ⟨true, true⟩ = [.finalizer] ∧
+    nativeHookGC (σ := Nat) ⟨true, true⟩ ⟨.done 0, false, true⟩ = [] := by decide
+
+example (ub : UB) : HookRel (ub := ub) {} {} ⟨.created ub.init, false, false⟩ := ⟨rfl, fun _ => ⟨rfl, rfl⟩⟩
+
 /-! ## non-vacuity -/
 
 /-- `x = yield 5; await tok(100); try: yield x finally: yield 9` (the last one ignores GeneratorExit) -/
